@@ -81,6 +81,44 @@ fn same_ts(a: Timestamp, want_ns: i128, what: &str) -> CaseResult {
     Ok(())
 }
 
+/// The integer (de)serialisation helpers of `jiff::fmt::serde::timestamp` are views and
+/// constructors like the others: the number written is the unit view, and reading it back
+/// gives the timestamp of that many units.
+fn serde_views(ts: Timestamp, ns: i128) -> CaseResult {
+    use serde::{Deserialize, Serialize};
+    macro_rules! unit {
+        ($req:literal, $opt:literal, $div:expr, $what:expr) => {{
+            #[derive(Serialize, Deserialize)]
+            struct Req {
+                #[serde(with = $req)]
+                t: Timestamp,
+            }
+            #[derive(Serialize, Deserialize)]
+            struct Opt {
+                #[serde(with = $opt)]
+                t: Option<Timestamp>,
+            }
+            let want: i128 = ns / $div;
+            let j = serde_json::to_string(&Req { t: ts }).map_err(|e| Failure::new(format!("serde-view-err:{}", $what), e.to_string()))?;
+            ensure!(j == format!("{{\"t\":{want}}}"), format!("serde-view-wrong:{}", $what), "{ts:?} serialises as {j}, want {want} {}", $what);
+            let jo = serde_json::to_string(&Opt { t: Some(ts) }).map_err(|e| Failure::new(format!("serde-view-err:{}", $what), e.to_string()))?;
+            ensure!(jo == j, format!("serde-view-wrong:{}", $what), "Some({ts:?}) serialises as {jo}, the required form as {j}");
+            let none = serde_json::to_string(&Opt { t: None }).unwrap_or_default();
+            ensure!(none == "{\"t\":null}" && serde_json::from_str::<Opt>(&none).map(|o| o.t.is_none()).unwrap_or(false), format!("serde-view-wrong:{}", $what), "None serialises as {none}");
+            if want.abs() < (1i128 << 62) {
+                let back: Req = serde_json::from_str(&j).map_err(|e| Failure::new(format!("serde-view-err:{}", $what), format!("{j}: {e}")))?;
+                let backo: Opt = serde_json::from_str(&j).map_err(|e| Failure::new(format!("serde-view-err:{}", $what), format!("{j}: {e}")))?;
+                ensure!(back.t.as_nanosecond() == want * $div && backo.t.map(|t| t.as_nanosecond()) == Some(want * $div), format!("serde-view-roundtrip:{}", $what), "{j} deserialises to {:?} / {:?}, want {} ns", back.t, backo.t, want * $div);
+            }
+        }};
+    }
+    unit!("jiff::fmt::serde::timestamp::second::required", "jiff::fmt::serde::timestamp::second::optional", NS_PER_SEC, "seconds");
+    unit!("jiff::fmt::serde::timestamp::millisecond::required", "jiff::fmt::serde::timestamp::millisecond::optional", 1_000_000i128, "milliseconds");
+    unit!("jiff::fmt::serde::timestamp::microsecond::required", "jiff::fmt::serde::timestamp::microsecond::optional", 1000i128, "microseconds");
+    unit!("jiff::fmt::serde::timestamp::nanosecond::required", "jiff::fmt::serde::timestamp::nanosecond::optional", 1i128, "nanoseconds");
+    Ok(())
+}
+
 fn check_to(ns: i128, off: i32) -> CaseResult {
     let ts = Timestamp::from_nanosecond(ns).map_err(|e| Failure::new("from-ns-rejects-in-range", format!("from_nanosecond({ns}) = {e}")))?;
     let o = Offset::from_seconds(off).map_err(|e| Failure::new("offset-rejects-in-range", format!("from_seconds({off}) = {e}")))?;
@@ -312,6 +350,7 @@ fn test_ctor(c: &Ctor, cx: &mut Cx) -> CaseResult {
         Ok(t) => {
             ensure!(s_ok && n_ok && t_ok, "new-accepts-out-of-range", "Timestamp::new({}, {}) = Ok", c.s, c.n);
             same_ts(t, total, "new")?;
+            serde_views(t, total)?;
         }
         Err(e) => {
             ensure!(!(s_ok && n_ok && t_ok), "new-rejects-in-range", "Timestamp::new({}, {}) = Err({e})", c.s, c.n);
